@@ -73,6 +73,13 @@ Definition leb_s (a b : string) : bool :=
   | _, _ => true
   end.
 
+(* the order used by the sorting model: total on all strings (an unparsable string, on which Python's
+   float() raises, counts as 0) and equal to leb_s wherever both strings parse (Proofs/NumOrder.v) *)
+Definition nval (s : string) : Z * Z :=
+  match parse_num s with Some x => x | None => (0%Z, 0%Z) end.
+Definition leb_v (a b : string) : bool :=
+  match dec_compare (nval a) (nval b) with Gt => false | _ => true end.
+
 (* canonical exact value: mantissa without trailing zeros; zero is (0,0) *)
 Fixpoint strip10 (fuel : nat) (m e : Z) : Z * Z :=
   match fuel with
